@@ -76,6 +76,17 @@ def custom_token_recognition(head, get_tokens):
 # -- recording actions ---------------------------------------------------------
 
 
+def _is_repetition(sym):
+    """The helper nonterminals parglare creates for x+ (action_name collect /
+    collect_sep) and x* (grammar_action set directly, no action_name)."""
+    if not hasattr(sym, "productions"):
+        return False
+    an = getattr(sym, "action_name", None)
+    if an in ("collect", "collect_sep"):
+        return True
+    return an is None and getattr(sym, "grammar_action", None) is not None
+
+
 def recording_actions(nts, terms, tag="n"):
     """Actions whose return value encodes which action ran, for which
     alternative, with which sub-results and named matches.  tag marks the
@@ -85,17 +96,18 @@ def recording_actions(nts, terms, tag="n"):
 
         def nt_action(context, nodes, _n=n, **kw):
             SEAM.hit("reduce_action")
-            # user code owns what the built-in actions hand it: lists returned for
-            # x* / x+ / x? sub-rules are modified in place, as actions commonly do
-            # (only results of NONTERMINALS: a terminal's result may be the token's
-            # own value object)
+            # user code owns what the built-in actions hand it: the lists that the
+            # built-in collect actions make for x* / x+ sub-rules are modified in place,
+            # as actions commonly do.  Only those: any other list may be an object of
+            # the forest itself (GLR's error reporting shifts tokens whose value is a
+            # list, and default actions pass a token's value object up unchanged).
             try:
                 rhs = [s for s in list.__iter__(context.production.rhs) if s.name != "EMPTY"]
             except Exception:
                 rhs = []
             for i, x in enumerate(nodes):
                 if (isinstance(x, list) and not (x and isinstance(x[0], str) and x[0] != "~")
-                        and i < len(rhs) and hasattr(rhs[i], "productions")):
+                        and i < len(rhs) and _is_repetition(rhs[i])):
                     x.append("~")
             r = [tag, _n, context.production.prod_symbol_id, list(nodes)]
             if kw:
